@@ -9,7 +9,8 @@
 (* A query (AST) is a record                                                *)
 (*   ent, sel (selected scalar fields), filters (<<f, op, v>>), order       *)
 (*   (<<f, dir>>), first, skip (0 = none), page ([kind, vals]), nullable    *)
-(*   (reference fields that may be empty), subs (<<field, query>>).         *)
+(*   (reference fields that may be empty), subs (<<field, query>>), aggs    *)
+(*   (<<alias, function, field>>) and having (<<alias, op, v>>).            *)
 (* DEV lists the deviations of the code from this meaning.                  *)
 EXTENDS Naturals, Integers, Sequences, FiniteSets, TLC
 CONSTANTS DEV
@@ -89,7 +90,37 @@ Eval(dv, data, q, base) ==
         sorted == SeqOfSet(paged, LAMBDA a, b : KeyCmp(q.ent, a, b, q.order, q.sel) = -1 \/ (KeyCmp(q.ent, a, b, q.order, q.sel) = 0 /\ a.id < b.id))
         limited == Take(Drop(sorted, q.skip), q.first)
     IN MapProject(dv, data, q, limited)
-ResultD(dv, data, q) == Eval(dv, data, q, ToSet(Rows(data, q.ent)))
+\* ------------------------------------------------------------ aggregates
+\* q.aggs = <<alias, fn, field>>; the selected scalar fields are the grouping keys; q.having filters on aliases.
+\* An aggregate ignores null values; without any value max / min / avg are null (-1 here: 0 is a possible sum).
+ANULL == -1
+RECURSIVE SumOver(_, _, _)
+SumOver(S, e, f) == IF S = {} THEN 0 ELSE LET r == CHOOSE x \in S : TRUE IN Val(e, r, f) + SumOver(S \ {r}, e, f)
+AggValue(a, S, e) ==
+    LET nn == {r \in S : Val(e, r, a[3]) # NULL}
+        vals == {Val(e, r, a[3]) : r \in nn}
+    IN CASE a[2] = "count" -> Cardinality(S)
+         [] a[2] = "max" -> IF nn = {} THEN ANULL ELSE CHOOSE v \in vals : \A w \in vals : v >= w
+         [] a[2] = "min" -> IF nn = {} THEN ANULL ELSE CHOOSE v \in vals : \A w \in vals : v <= w
+         [] a[2] = "sum" -> SumOver(nn, e, a[3])
+         [] a[2] = "avg" -> IF nn = {} THEN ANULL ELSE (SumOver(nn, e, a[3]) * 60) \div Cardinality(nn)   \* sixtieths: exact for 1..6 values
+Aliases(q) == {q.aggs[i][1] : i \in DOMAIN q.aggs}
+AggOf(q, al) == q.aggs[CHOOSE i \in DOMAIN q.aggs : q.aggs[i][1] = al]
+GroupKey(q, r) == [f \in ToSet(q.sel) |-> Val(q.ent, r, f)]
+RECURSIVE RowCmp(_, _, _)
+RowCmp(a, b, ord) == IF ord = <<>> THEN 0
+                     ELSE LET x == a[Head(ord)[1]]  y == b[Head(ord)[1]]
+                          IN IF x = y THEN RowCmp(a, b, Tail(ord)) ELSE IF (x < y) = (Head(ord)[2] = "asc") THEN -1 ELSE 1
+EvalAgg(data, q) ==
+    LET kept == {r \in ToSet(Rows(data, q.ent)) : \A i \in DOMAIN q.filters : Pass(q.ent, r, q.filters[i], q.sel)}
+        keys == IF q.sel = <<>> THEN {<<>>} ELSE {GroupKey(q, r) : r \in kept}   \* without grouping key: one row, even over no rows
+        GroupRows(k) == IF q.sel = <<>> THEN kept ELSE {r \in kept : GroupKey(q, r) = k}
+        RowOf(k) == [f \in ToSet(q.sel) \cup Aliases(q) |-> IF f \in ToSet(q.sel) THEN k[f] ELSE AggValue(AggOf(q, f), GroupRows(k), q.ent)]
+        all == {RowOf(k) : k \in keys}
+        passed == {w \in all : \A i \in DOMAIN q.having : w[q.having[i][1]] # ANULL /\ Cmp(q.having[i][2], w[q.having[i][1]], q.having[i][3])}
+        sorted == SeqOfSet(passed, LAMBDA a, b : RowCmp(a, b, q.order) = -1)
+    IN Take(Drop(sorted, q.skip), q.first)
+ResultD(dv, data, q) == IF q.aggs # <<>> THEN EvalAgg(data, q) ELSE Eval(dv, data, q, ToSet(Rows(data, q.ent)))
 Result(data, q) == ResultD(DEV, data, q)
 \* the paging loop of an application: first k, then after(keys of the last row) until a page is empty (at most n pages)
 KeysOfRow(row, q) == [j \in 1..Len(q.order) |-> row[q.order[j][1]]]
